@@ -211,6 +211,18 @@ func (e *Engine) feasible(st *State, c *Term) bool {
 	return r != "unsat"
 }
 
+func (e *Engine) feas3(st *State, c *Term) string {
+	if c.IsTrue() {
+		return "sat"
+	}
+	if c.IsFalse() {
+		return "unsat"
+	}
+	r := e.sol.Check(append(append([]*Term(nil), st.pc...), c))
+	e.sol.Done()
+	return r
+}
+
 // decide resolves a symbolic condition, forking the state if both outcomes are feasible.
 func (e *Engine) decide(st *State, cond *Term) bool {
 	if cond.IsTrue() {
@@ -230,8 +242,23 @@ func (e *Engine) decide(st *State, cond *Term) bool {
 		}
 		return d
 	}
-	tf := e.feasible(st, cond)
-	ff := e.feasible(st, Not(cond))
+	rt := e.feas3(st, cond)
+	rf := e.feas3(st, Not(cond))
+	// a side the solver cannot decide is followed only if the other side is infeasible (then it is implied). If the other
+	// side is feasible the undecided side is dropped and counted: the run is then reported as incomplete (INCONCLUSIVE), never
+	// as success - carrying an undecided constraint along makes every later query of the path undecided too, for hours.
+	if rt == "unknown" && rf == "unknown" {
+		e.kill("incomplete: both sides of a branch undecided by the solver @" + e.site(st))
+	}
+	if rt == "unknown" && rf == "sat" {
+		e.incomplete["undecided branch side dropped @"+e.site(st)]++
+		rt = "unsat"
+	}
+	if rf == "unknown" && rt == "sat" {
+		e.incomplete["undecided branch side dropped @"+e.site(st)]++
+		rf = "unsat"
+	}
+	tf, ff := rt != "unsat", rf != "unsat"
 	switch {
 	case tf && ff:
 		st.forkDepth++
@@ -2110,14 +2137,40 @@ func (e *Engine) intrinsic(st *State, fv Func, args []Value, x *ssa.Call) bool {
 			}
 		}
 		set(Str{b: []*Term{BV(8, '?')}})
+	case name == "errors.Is":
+		// the identity step of errors.Is (the real one needs reflection for the comparability test). Errors made by
+		// fmt.Errorf / errors.New are opaque in this engine (a %w-wrapped error is not reachable through them), and a dynamic
+		// type with its own Unwrap or Is method is not followed: such a path is incomplete rather than wrongly decided.
+		ev, _ := args[0].(Iface)
+		if ev.t != nil {
+			ms := e.prog.MethodSets.MethodSet(ev.t)
+			if ms.Lookup(nil, "Unwrap") != nil || ms.Lookup(nil, "Is") != nil {
+				e.kill("incomplete: errors.Is on an error type with Unwrap/Is")
+			}
+		}
+		set(eqv(args[0], args[1]))
 	case name == "fmt.Errorf" || name == "errors.New" || name == "github.com/pkg/errors.Errorf" || name == "github.com/pkg/errors.New":
 		// opaque non-nil error with its own identity (two errors are equal only if they are the same value)
 		set(Iface{t: types.Universe.Lookup("error").Type(), v: Ptr{obj: st.alloc(Struct{})}})
 	case name == "encoding/hex.EncodeToString" && !e.realHex:
-		n := args[0].(Slice).len
+		sl := args[0].(Slice)
+		n := sl.len
 		r := Str{}
-		for i := 0; i < 2*n; i++ {
-			r.b = append(r.b, BV(8, 'x'))
+		opaque := false
+		for i := 0; i < n; i++ {
+			if t, ok := st.arrOf(sl).e[sl.off+i].(*Term); ok && (t.op == "tagbyte" || t.op == "blobref") {
+				opaque = true
+			}
+		}
+		for i := 0; i < n; i++ {
+			if opaque {
+				// the encoding of an opaque (tagged) byte string, e.g. a serialised group element used as a map key: an injective
+				// string of the right length (every byte twice) - equal iff the inputs are equal, which is all the code can observe
+				t := st.arrOf(sl).e[sl.off+i].(*Term)
+				r.b = append(r.b, t, t)
+				continue
+			}
+			r.b = append(r.b, BV(8, 'x'), BV(8, 'x'))
 		}
 		set(r)
 	default:
@@ -2312,6 +2365,7 @@ func (e *Engine) Run(entry *ssa.Function) {
 		case "crypto/rand":
 			alloc = true
 		}
+		std := run // the small library packages are initialised also under -noinit (sentinel errors such as io.EOF, context.Canceled)
 		if e.modPrefix != "" && strings.HasPrefix(path, e.modPrefix) && p != e.pkg {
 			alloc, run = true, true
 		}
@@ -2325,7 +2379,7 @@ func (e *Engine) Run(entry *ssa.Function) {
 				}
 			}
 		}
-		if run && !e.noinit {
+		if run && (!e.noinit || std) {
 			if ini := p.Func("init"); ini != nil && ini.Blocks != nil {
 				depInits = append(depInits, ini)
 			}
